@@ -101,6 +101,34 @@ func genNames() {
 		facts["names."+t.goName+".len"] = len(m)
 	}
 
+	// opentype/gtab/locale.go: scriptBcp47, langBcp47 as byte-code strings
+	codes := func(goLit string) string {
+		str, err := strconv.Unquote(goLit)
+		if err != nil {
+			fail("names: cannot unquote %s", goLit)
+		}
+		out := "["
+		for i := 0; i < len(str); i++ {
+			if i > 0 {
+				out += ", "
+			}
+			out += fmt.Sprint(int(str[i]))
+		}
+		return out + "]"
+	}
+	for _, t := range []struct{ goName, leanName string }{{"scriptBcp47", "otScripts"}, {"langBcp47", "otLangs"}} {
+		m := mapLit("opentype/gtab/locale.go", t.goName)
+		l.p("/-- opentype/gtab/locale.go: `%s`, OpenType tag -> BCP 47 subtag (both as byte codes) -/\ndef %s : List (List Nat × List Nat) := [", t.goName, t.leanName)
+		for i, e := range m {
+			if i > 0 {
+				l.p(",")
+			}
+			l.p("\n  (%s, %s)", codes(e.k), codes(e.v))
+		}
+		l.p("]\n\n")
+		facts["names."+t.goName+".len"] = len(m)
+	}
+
 	// name/table.go: maxID
 	maxID := constNat("name/table.go", "maxID")
 	facts["names.maxID"] = maxID
